@@ -108,7 +108,7 @@ SUITES["C19"] = {"quick": [{"family": "mon", "mode": "", "share": 3}, {"family":
 ALL_FAMILIES.append(("mon", ""))
 
 # C20 also runs the families with external services (monitoring stations, dump files, RTR caches, VRFs)
-SUITES["C20"]["quick"] += [{"family": "mon", "mode": "", "share": 1}, {"family": "rpki", "mode": "", "share": 1}]
-SUITES["C20"]["thorough"] += [{"family": "mon", "mode": "", "share": 2}, {"family": "rpki", "mode": "", "share": 1}, {"family": "vpn", "mode": "", "share": 1}, {"family": "reset", "mode": "", "share": 1},
+SUITES["C20"]["quick"] += [{"family": "mon", "mode": "", "share": 1}, {"family": "rpki", "mode": "", "share": 1}, {"family": "world", "mode": "pack", "share": 1}, {"family": "vpn", "mode": "", "share": 1}]
+SUITES["C20"]["thorough"] += [{"family": "world", "mode": "pack", "share": 1}, {"family": "world", "mode": "select", "share": 1}, {"family": "fsm", "mode": "nego", "share": 1}, {"family": "gr", "mode": "llgr", "share": 1}, {"family": "wire", "mode": "malformed", "share": 1}, {"family": "rpki", "mode": "corrupt", "share": 1}, {"family": "mon", "mode": "", "share": 2}, {"family": "rpki", "mode": "", "share": 1}, {"family": "vpn", "mode": "", "share": 1}, {"family": "reset", "mode": "", "share": 1},
                               {"family": "mon", "mode": "", "share": 1, "race": True}, {"family": "rpki", "mode": "", "share": 1, "race": True}]
 PROP_INFO["C20"]["rule"] = PROP_INFO["C20"]["rule"].replace("all simulation families (world, fsm, gr, wire;", "all simulation families (world, fsm, gr, wire, mon, rpki, vpn, reset;")
